@@ -101,13 +101,17 @@ CLAIMED.update({
     text="compute_totp/check_totp are proved equal to an RFC 4226/6238 spec (dynamic truncation arithmetic, step counter, "
          "window -1..+1) over uninterpreted HMAC-SHA1/base32; compute_wcs, derive_key, pbkdf2, WAMP-CRA on_challenge "
          "(salted and unsalted) equal their RFC compositions (argument order, encodings, key stretching only with a salt); "
+         "AuthScram.on_challenge with the PBKDF2 KDF returns exactly the RFC 5802 client proof base64(ClientKey XOR "
+         "HMAC(H(ClientKey), AuthMessage)) with AuthMessage = n=<saslprep(authid)>,r=<client nonce>,r=<server nonce>,"
+         "s=<salt>,i=<iterations>,c=<channel binding>,r=<server nonce> and SaltedPassword = PBKDF2(password, base64-decoded "
+         "salt, i, 32), and keeps both for the server-signature check; "
          "AuthScram.on_welcome returns None iff the alleged server signature equals HMAC(HMAC(SaltedPassword,'Server Key'), "
          "AuthMessage); util.xor is byte-wise XOR with a length check (loop invariant).",
     note="The primitives (HMAC, SHA, PBKDF2, Argon2, Ed25519, base32/64) are uninterpreted: their bindings are exercised by "
-         "the pinned RFC test vectors, their cryptographic strength is an assumption. AuthScram.on_challenge (auth-message "
-         "formatting, client proof) is outside the verifier's reach: a *bounded* stand-in runs on every check -- the real "
-         "functions against reference verifiers written from RFC 5802 / 6238 / 2898 with the standard library (685 cases, "
-         "never counted as proved). Not covered: Argon2id SCRAM, the cryptosign signing chain.",
+         "the pinned RFC test vectors, their cryptographic strength is an assumption. A *bounded* reference harness also runs "
+         "on every check -- the real functions against verifiers written from RFC 5802 / 6238 / 2898 with the standard "
+         "library (685 cases, never counted as proved); it is what replays counterexamples. Not covered: the Argon2id "
+         "variant of SCRAM (same code path up to the KDF call), the cryptosign signing chain.",
     technique="contract-based deductive verification over uninterpreted cryptographic primitives, z3; bounded reference "
               "harness (stdlib verifiers) for SCRAM"),
 })
